@@ -3,7 +3,7 @@ package gen
 import "github.com/IrineSistiana/mosproxy/verifsim/plan"
 
 var (
-	addrSchemes   = []string{"", "udp", "tcp", "tcp+pipeline", "tls", "tls+pipeline", "https", "http"}
+	addrSchemes   = []string{"", "udp", "tcp", "tcp+pipeline", "tls", "tls+pipeline", "https", "http", "quic", "h3"}
 	addrHostForms = []string{"ip4", "ip6", "ip6upper", "ip6long", "name"}
 	addrDialForms = []string{"", "ip4", "ip4port", "ip6port", "ip6bare", "name", "nameport", "unix"}
 )
@@ -34,7 +34,7 @@ func genAddr(r *rng, seed uint64) *plan.Plan {
 		case "ip4port", "ip6port", "nameport":
 			c.DialPort = 1000 + r.intn(50000)
 		case "unix":
-			if c.Scheme == "" || c.Scheme == "udp" {
+			if c.Scheme == "" || c.Scheme == "udp" || c.Scheme == "quic" || c.Scheme == "h3" {
 				c.DialForm = "ip4" // '@' is for stream-based upstreams only
 			}
 		}
@@ -45,7 +45,7 @@ func genAddr(r *rng, seed uint64) *plan.Plan {
 
 func genAuth(r *rng, seed uint64) *plan.Plan {
 	p := &plan.Plan{Version: 1, Seed: seed, Family: "auth", Focus: "C17", Arm: "auth"}
-	kinds := []string{"tls", "tls+pipeline", "https"}
+	kinds := []string{"tls", "tls+pipeline", "https", "quic", "h3"}
 	profiles := []string{"good", "wrongname", "otherca", "expired", "notyet", "selfsigned"}
 	options := []string{"ca", "none", "skip"}
 	total := len(kinds) * len(profiles) * len(options) * 2
